@@ -18,6 +18,7 @@ mod sim;
 mod times;
 mod watch;
 mod winsim;
+mod platsim;
 
 pub fn tid() -> u64 {
     thread_local! { static T: std::cell::Cell<u64> = const { std::cell::Cell::new(0) }; }
@@ -51,6 +52,7 @@ fn main() {
         "asyncs" => asyncs::run(&args[2], &args[3]),
         "regs" => regs::run(&args[2], &args[3]),
         "winsim" => winsim::run(&args[2], &args[3]),
+        "platsim" => platsim::run(&args[2], &args[3]),
         "selfcheck" => {
             // used by `check.py setup`: proves interposition is live
             events::open(&args[2]);
